@@ -473,7 +473,8 @@ class Body:
             v = self.val_operand(rv["o"], stack)
             if rv["ck"].startswith("PointerCoercion") or rv["ck"] in ("PtrToPtr", "Transmute", "Subtype"):
                 return v
-            return ("cast", v, rv["ty"])
+            src = rv["o"]["p"]["ty"] if rv["o"]["k"] in ("copy", "move") else rv["o"].get("ty")
+            return ("cast", v, rv["ty"], src)
         if k == "bin":
             return mk_bin(rv["op"], self.val_operand(rv["a"], stack), self.val_operand(rv["b"], stack))
         if k == "un":
@@ -781,7 +782,7 @@ def subst_params(t, env):
     if k == "discr":
         return ("discr", subst_params(t[1], env), t[2])
     if k == "cast":
-        return ("cast", subst_params(t[1], env), t[2])
+        return ("cast", subst_params(t[1], env)) + tuple(t[2:])
     if k == "un":
         return mk_un(t[1], subst_params(t[2], env))
     if k == "bin":
